@@ -76,7 +76,11 @@ def _check_segmented_predict(chk, r2, sm, sinit, spred, mapping, names1, W1):
                 continue
             except Unsupported as e:
                 raise AnalysisError(f"{spred.key}: uses an operation outside the one-row abstraction: {e}")
-            got = res.get("predicted_usage") if isinstance(res, dict) else None
+            from engine.rowabs import RowFrame as _RF
+            if isinstance(res, _RF):     # built with Series.to_frame(name) instead of DataFrame({name: series})
+                got = res["predicted_usage"] if "predicted_usage" in res.columns else None
+            else:
+                got = res.get("predicted_usage") if isinstance(res, dict) else None
             gv = got.v if isinstance(got, Ser) else None
             want = value_of[mapping[mon]] if missing is None else math.nan
             ok = gv is not None and gv is not ABSENT and ((math.isnan(want) and isinstance(gv, float) and math.isnan(gv)) or (not math.isnan(want) and abs(gv - want) < 1e-9))
